@@ -217,6 +217,40 @@ func analyse(a pvpeg.Answer) facts {
 	return f
 }
 
+// stressText: see the class "opt-stress" in evaluate.
+func stressText(r interface{ Intn(int) int }) string {
+	term := func() string {
+		return []string{`"a"i`, `"b"`, `'c'i`, `[d-f]`, `"gh"i`, `'k'`, `[m]i`, `"A"`}[r.Intn(8)]
+	}
+	var b strings.Builder
+	nr := 1 + r.Intn(3)
+	for k := 0; k < nr; k++ {
+		fmt.Fprintf(&b, "R%d <- ", k)
+		na := 1 + r.Intn(3)
+		for a := 0; a < na; a++ {
+			if a > 0 {
+				b.WriteString(" / ")
+			}
+			ni := 1 + r.Intn(4)
+			for i := 0; i < ni; i++ {
+				if i > 0 {
+					b.WriteByte(' ')
+				}
+				switch {
+				case k+1 < nr && r.Intn(5) == 0:
+					fmt.Fprintf(&b, "R%d", k+1)
+				case r.Intn(6) == 0:
+					b.WriteString("(" + term() + " " + term() + ")")
+				default:
+					b.WriteString(term())
+				}
+			}
+		}
+		b.WriteByte('\n')
+	}
+	return b.String()
+}
+
 func evaluate(srv *pvpeg.Server, pigeon, dir string, seed int64, i int, av pvpeg.Avoid, timeout time.Duration) *item {
 	r := pvpeg.SubRand(seed, 0, i)
 	it := &item{}
@@ -230,7 +264,15 @@ func evaluate(srv *pvpeg.Server, pigeon, dir string, seed int64, i int, av pvpeg
 		st.Avoid = av
 		return pvpeg.Print(g, r, st)
 	}
-	switch x := r.Intn(100); {
+	forceOpt := false
+	switch x := r.Intn(106); {
+	case x >= 100:
+		// what ast.Optimize rewrites, densely: adjacent literals with and without the i suffix, one-rune literals and classes
+		// in choices, parenthesised groups, small rules referenced from others - always with -optimize-grammar (a selftest
+		// showed the one random hit the "optimizer never reaches its fixpoint" change had rested on to be gone)
+		it.class = "opt-stress"
+		it.text = stressText(r)
+		forceOpt = true
 	case x < 30:
 		it.class = "valid"
 		it.text = valid(true)
@@ -284,6 +326,9 @@ func evaluate(srv *pvpeg.Server, pigeon, dir string, seed int64, i int, av pvpeg
 			}
 			add(fl)
 		}
+	}
+	if forceOpt && !has["-optimize-grammar"] {
+		add("-optimize-grammar")
 	}
 	if len(it.text) < 150 && r.Intn(12) == 0 {
 		add("-debug") // the trace is huge: small inputs only
